@@ -818,7 +818,7 @@ def replay_corpus(hz, job, c):
 
 def replay_canary(hz, job, c):
     from . import c12audit
-    probs = c12audit.audit_run(hz, [c])
+    probs = c12audit.audit_run(hz, [c]) + [p for p in c12audit.pint_canary(hz) if p[0] == c]
     return ('filter %r: %s' % probs[0]) if probs else None
 
 
@@ -842,6 +842,7 @@ if __name__ == '__main__':
             from . import c12audit
             texts = c12audit.CANARY_FILTERS + list(FILTER_DOCS.values())
             probs = c12audit.audit_run(hszinc, texts)
+            probs += c12audit.pint_canary(hszinc)
             res = dict(job=job, status='done', cex=[], ncex=0, forms_run=len(texts), forms_failures=[[t, m] for t, m in probs], wall_s=0.0, functions=[], conc_calls=[],
                        stats=dict(explorations=0, paths=len(texts), checks=0, solver_s=0.0, nontrivial=len(texts), errors=[], reached=len(texts), budget=0))
         elif job.get('corpus'):
